@@ -152,3 +152,39 @@ def suback_pl(gs: ListIB, i: int) -> Bytes:
 @spec
 def sSUBACK(id: int, gs: ListIB) -> Bytes:
     return frame(0x90, u16(id) + suback_pl(gs, len(gs)))
+
+
+# ---- [3.1] CONNECT ----------------------------------------------------------------------------------
+# protocol name / level: 3.1.1 'MQTT' / 4 [3.1.2.1, 3.1.2.2]; 3.1 'MQIsdp' / 3 (IBM MQTT V3.1 spec, 3.1 CONNECT)
+@spec
+def proto_name(v: Ver) -> Str:
+    return 'MQIsdp' if v == v31 else 'MQTT'
+
+
+@spec
+def proto_level(v: Ver) -> int:
+    return 3 if v == v31 else 4
+
+
+# [3.1.2.3] connect flags: 7 user name, 6 password, 5 will retain, 4-3 will QoS, 2 will flag, 1 clean session, 0 reserved
+@spec
+def connect_flags(clean: bool, will: bool, wqos: int, wret: bool, hasuser: bool, haspass: bool) -> int:
+    return 128 * b2i(hasuser) + 64 * b2i(haspass) + (32 * b2i(wret) + 8 * wqos + 4 if will else 0) + 2 * b2i(clean)
+
+
+# [3.1.3] payload order: client identifier, will topic, will message, user name, password;
+# will message and password are length-prefixed binary data: for str values their UTF-8 bytes, BYTE length prefix
+@spec
+def connect_body(v: Ver, clean: bool, will: bool, wqos: int, wret: bool, wtopic: Str, wmsg: Str,
+                 hasuser: bool, user: Str, haspass: bool, pw: Str, keepalive: int, cid: Str) -> Bytes:
+    return (mstr(proto_name(v)) + seq(proto_level(v)) + seq(connect_flags(clean, will, wqos, wret, hasuser, haspass))
+            + u16(keepalive) + mstr(cid)
+            + ((mstr(wtopic) + mstr(wmsg)) if will else seq())
+            + (mstr(user) if hasuser else seq())
+            + (mstr(pw) if haspass else seq()))
+
+
+@spec
+def sCONNECT(v: Ver, clean: bool, will: bool, wqos: int, wret: bool, wtopic: Str, wmsg: Str,
+             hasuser: bool, user: Str, haspass: bool, pw: Str, keepalive: int, cid: Str) -> Bytes:
+    return frame(0x10, connect_body(v, clean, will, wqos, wret, wtopic, wmsg, hasuser, user, haspass, pw, keepalive, cid))
